@@ -1,2 +1,154 @@
 // In-crate child probe of acmed/src/hooks.rs (feature breard_r_acmed_verif): private access to the parent module.
+// Builds REAL `Hook` lists and REAL hook data from JSON and runs the REAL `hooks::call`.  The
+// environment layers are applied through the REAL `set_env`, in the order given by the harness.
 #![allow(dead_code, unused_imports)]
+use super::*;
+use serde_json::{json, Value};
+
+fn s(v: &Value, k: &str) -> String {
+	v[k].as_str().unwrap_or("").to_string()
+}
+
+fn opt_s(v: &Value, k: &str) -> Option<String> {
+	v[k].as_str().map(|x| x.to_string())
+}
+
+/// The kebab-case names of the configuration file (`config.rs`, serde names of `HookType`).
+pub fn hook_type_of(name: &str) -> Option<HookType> {
+	Some(match name {
+		"file-pre-create" => HookType::FilePreCreate,
+		"file-post-create" => HookType::FilePostCreate,
+		"file-pre-edit" => HookType::FilePreEdit,
+		"file-post-edit" => HookType::FilePostEdit,
+		"challenge-http-01" => HookType::ChallengeHttp01,
+		"challenge-http-01-clean" => HookType::ChallengeHttp01Clean,
+		"challenge-dns-01" => HookType::ChallengeDns01,
+		"challenge-dns-01-clean" => HookType::ChallengeDns01Clean,
+		"challenge-tls-alpn-01" => HookType::ChallengeTlsAlpn01,
+		"challenge-tls-alpn-01-clean" => HookType::ChallengeTlsAlpn01Clean,
+		"post-operation" => HookType::PostOperation,
+		_ => return None,
+	})
+}
+
+/// `[{name, types, cmd, args|null, allow_failure, stdin|stdin_str, stdout, stderr}]` -> `Vec<Hook>`.
+pub fn build_hooks(v: &Value) -> Result<Vec<Hook>, String> {
+	let mut out = vec![];
+	for h in v.as_array().cloned().unwrap_or_default() {
+		let mut types = HashSet::new();
+		for t in h["types"].as_array().cloned().unwrap_or_default() {
+			let n = t.as_str().unwrap_or("");
+			types.insert(hook_type_of(n).ok_or(format!("unknown hook type {n}"))?);
+		}
+		let stdin = match (opt_s(&h, "stdin"), opt_s(&h, "stdin_str")) {
+			(Some(f), _) => HookStdin::File(f),
+			(None, Some(t)) => HookStdin::Str(t),
+			(None, None) => HookStdin::None,
+		};
+		out.push(Hook {
+			name: s(&h, "name"),
+			hook_type: types,
+			cmd: s(&h, "cmd"),
+			args: h["args"].as_array().map(|a| {
+				a.iter()
+					.map(|x| x.as_str().unwrap_or("").to_string())
+					.collect()
+			}),
+			stdin,
+			stdout: opt_s(&h, "stdout"),
+			stderr: opt_s(&h, "stderr"),
+			allow_failure: h["allow_failure"].as_bool().unwrap_or(false),
+		});
+	}
+	Ok(out)
+}
+
+/// `[[k, v], ...]` -> map.
+pub fn env_of(v: &Value) -> HashMap<String, String> {
+	let mut m = HashMap::new();
+	for p in v.as_array().cloned().unwrap_or_default() {
+		if let (Some(k), Some(val)) = (p[0].as_str(), p[1].as_str()) {
+			m.insert(k.to_string(), val.to_string());
+		}
+	}
+	m
+}
+
+fn apply_layers<T: HookEnvData>(data: &mut T, layers: &Value) {
+	for l in layers.as_array().cloned().unwrap_or_default() {
+		data.set_env(&env_of(&l));
+	}
+}
+
+fn strs(v: &Value) -> Vec<String> {
+	v.as_array()
+		.map(|a| {
+			a.iter()
+				.map(|x| x.as_str().unwrap_or("").to_string())
+				.collect()
+		})
+		.unwrap_or_default()
+}
+
+fn verdict(r: Result<(), Error>) -> Value {
+	match r {
+		Ok(()) => json!({"ok": true}),
+		Err(e) => json!({"ok": false, "err": e.message}),
+	}
+}
+
+/// op hooks_call, mode raw: hook data of the requested kind with the given member values, the
+/// environment layers through `set_env` in the given order, then `hooks::call`.
+pub async fn call_raw(input: &Value) -> Value {
+	let hooks = match build_hooks(&input["hooks"]) {
+		Ok(h) => h,
+		Err(e) => return json!({"bad_input": e}),
+	};
+	let ty = match hook_type_of(input["type"].as_str().unwrap_or("")) {
+		Some(t) => t,
+		None => return json!({"bad_input": "type"}),
+	};
+	let logger = crate::certificate::verif::file_manager(&json!({}));
+	let d = &input["data"];
+	let layers = &input["layers"];
+	match d["kind"].as_str().unwrap_or("") {
+		"challenge" => {
+			let mut data = ChallengeHookData {
+				identifier: s(d, "identifier"),
+				identifier_tls_alpn: s(d, "identifier_tls_alpn"),
+				challenge: s(d, "challenge"),
+				file_name: s(d, "file_name"),
+				proof: s(d, "proof"),
+				raw_proof: s(d, "raw_proof"),
+				is_clean_hook: d["is_clean_hook"].as_bool().unwrap_or(false),
+				env: HashMap::new(),
+			};
+			apply_layers(&mut data, layers);
+			verdict(call(&logger, &hooks, &data, ty).await)
+		}
+		"post-operation" => {
+			let mut data = PostOperationHookData {
+				identifiers: strs(&d["identifiers"]),
+				key_type: s(d, "key_type"),
+				status: s(d, "status"),
+				is_success: d["is_success"].as_bool().unwrap_or(false),
+				certificate_path: PathBuf::from(s(d, "certificate_path")),
+				private_key_path: PathBuf::from(s(d, "private_key_path")),
+				env: HashMap::new(),
+			};
+			apply_layers(&mut data, layers);
+			verdict(call(&logger, &hooks, &data, ty).await)
+		}
+		"file" => {
+			let mut data = FileStorageHookData {
+				file_name: s(d, "file_name"),
+				file_directory: s(d, "file_directory"),
+				file_path: PathBuf::from(s(d, "file_path")),
+				env: HashMap::new(),
+			};
+			apply_layers(&mut data, layers);
+			verdict(call(&logger, &hooks, &data, ty).await)
+		}
+		_ => json!({"bad_input": "data.kind"}),
+	}
+}
